@@ -17,7 +17,7 @@ def _child(plan, wfd):
     def emit(ev):
         os.write(wfd, (json.dumps(ev) + "\n").encode())
     env.setup()
-    dn = os.open(os.devnull, os.O_WRONLY)
+    dn = os.open(os.environ.get("VERIF_CHILD_LOG", os.devnull), os.O_WRONLY | os.O_CREAT | os.O_APPEND)
     os.dup2(dn, 1)
     os.dup2(dn, 2)
     import socketserver
